@@ -275,6 +275,22 @@ def netlist_cases(draw, max_nodes, n_cycles):
         desc['nodes'].append({'op': 'Not', 'args': ['n%d' % n0], 'w': 1, 'g': g, 'p': {}})
         desc['order'] = [n0 + 1] + desc['order'] + [n0]
         desc['outputs'] = sorted(set(desc['outputs'] + ['n%d' % (n0 + 1)]))
+    # two registers of one shape (one shared module): the control of one is tied to a Constant (enable 1 / reset 0, as in
+    # ClockDivider or hw_delay), the control of the other is live
+    one_bit = ['i%d' % j for j, i in enumerate(desc['inputs']) if i['w'] == 1] + ['n%d' % j for j, nd in enumerate(desc['nodes']) if nd['w'] == 1]
+    if one_bit and draw(st.integers(0, 3)) == 0:
+        src = draw(st.sampled_from(['i%d' % j for j in range(len(desc['inputs']))] + ['n%d' % j for j in range(len(desc['nodes']))]))
+        w = netgen.sig_w(desc, src)
+        kind = draw(st.sampled_from(['en', 'rst']))
+        n0 = len(desc['nodes'])
+        p = {'en': kind == 'en', 'rst': kind == 'rst'}
+        g1, g2 = [draw(st.integers(0, len(desc['groups']) - 1)) for _ in range(2)]
+        desc['nodes'].append({'op': 'Constant', 'args': [], 'w': 1, 'p': {'v': 1 if kind == 'en' else 0}, 'g': g1})
+        desc['nodes'].append({'op': 'Reg', 'args': [src, 'n%d' % n0], 'w': w, 'p': dict(p), 'g': g1})
+        desc['nodes'].append({'op': 'Reg', 'args': [src, draw(st.sampled_from(one_bit))], 'w': w, 'p': dict(p), 'g': g2})
+        for j in draw(st.permutations([n0, n0 + 1, n0 + 2])):
+            desc['order'].insert(draw(st.integers(0, len(desc['order']))), j)
+        desc['outputs'] = sorted(set(desc['outputs'] + ['n%d' % (n0 + 1), 'n%d' % (n0 + 2)]))
     excluded = 0
     for nd in desc['nodes']:
         if nd['op'] == 'Add' and nd['args'][0] == nd['args'][1]:
